@@ -13,8 +13,11 @@ import time
 VERIF = os.path.dirname(os.path.dirname(os.path.abspath(__file__)))
 REPO = os.environ.get('VERIF_REPO', '/repo')
 SPEC = os.path.join(VERIF, 'spec')
-BUILD = os.path.join(VERIF, 'build')
-EVIDENCE = os.path.join(VERIF, 'evidence')
+# VERIF_BUILD / VERIF_EVIDENCE redirect scratch output and evidence when the
+# checks are pointed at a mutated scratch copy (VERIF_REPO) for self-tests
+BUILD = os.environ.get('VERIF_BUILD') or os.path.join(VERIF, 'build')
+CACHE = os.path.join(VERIF, 'build', 'cache')
+EVIDENCE = os.environ.get('VERIF_EVIDENCE') or os.path.join(VERIF, 'evidence')
 SEED = int(os.environ.get('VERIF_SEED', '0') or 0)
 NCPU = min(16, os.cpu_count() or 4)
 
